@@ -53,10 +53,11 @@ fn accepted_program(env: &Env, rng: &mut Rng) -> Option<(String, Vec<(usize, usi
         // half of them with kept (neutral) directives in the trivia: faults right after a directive line
         let with_directives = rng.chance(1, 2);
         if with_directives {
-            let lay = crate::mutate::Layout { directives: true, defines: false, non_ascii: false, form_feed: false, comments: true };
+            let lay = crate::mutate::Layout { directives: true, defines: rng.chance(1, 2), non_ascii: false, form_feed: false, comments: true };
             p = crate::mutate::relayout(&p, rng, &lay)?;
         }
-        let (toks, fault) = lexer::lex_mode(&p, true);
+        // (not the strict mode: a `define body may hold a backslash followed by a blank)
+        let (toks, fault) = lexer::lex_mode(&p, false);
         if fault.is_some() {
             return None;
         }
@@ -64,13 +65,19 @@ fn accepted_program(env: &Env, rng: &mut Rng) -> Option<(String, Vec<(usize, usi
         let b = p.as_bytes();
         let mut spans = Vec::new();
         let mut in_dir = false;
+        let mut after_backslash = false;
         for t in &toks {
             if t.k == K::Ws {
-                if in_dir && p[t.s..t.e].contains('\n') {
+                // backslash-newline continues a directive line; the line ends at the next newline
+                let w = &p[t.s..t.e];
+                let w = if after_backslash { w.strip_prefix("\r\n").or_else(|| w.strip_prefix('\n')).or_else(|| w.strip_prefix('\r')).unwrap_or(w) } else { w };
+                if in_dir && w.contains('\n') {
                     in_dir = false;
                 }
+                after_backslash = false;
                 continue;
             }
+            after_backslash = t.k == K::Punct && &p[t.s..t.e] == "\\";
             if t.k == K::Tick {
                 in_dir = true;
                 continue;
